@@ -347,7 +347,7 @@ def gen_cases(ctx, n):
             if e.kind == "dir" and e.level == 0:
                 e.level = 2          # level-0 directory entries cannot carry a trailing separator portably
         implicit = None
-        kk = r.random()
+        kk = r.random() if i >= 4 else 1.0          # (the first four cases are the long-path cases: explicit directories)
         if kk < 0.12 and any(e.kind != "dir" for e in ents):
             ents = [e for e in ents if e.kind != "dir"]                 # an archive without directory entries (LHA for DOS, LHarc)
             implicit = "nodirs"
@@ -358,6 +358,11 @@ def gen_cases(ctx, n):
                 ents = [e for e in ents if e is not drop]
                 implicit = "onedrop"
         comp = assign_contents(r, ents)
+        if i < 4:
+            for e in ents:
+                if e.kind == "file" and e.method == b"-lk7-":
+                    e.method = b"-lh0-"          # LHark members are level 1 and cannot carry a long path: stored instead
+                    comp[id(e)] = e.data
         for e in ents:
             if e.kind == "file" and e.method.startswith(b"-pm") and e.level == 0:
                 e.level = 2          # level-0 headers of PMarc methods carry no Unix area (the parser ignores it by design)
@@ -370,7 +375,7 @@ def gen_cases(ctx, n):
             # LONG stored paths: the whole tree below two directories with long names, so that the members' paths straddle 255 / 256 /
             # 257 characters and more (what a fixed path buffer in the tool would cut); level-2 headers carry them
             d1 = bytes(r.choice(b"abcdefghijklmnopqrstuvwxyz0123456789") for _ in range(r.choice([60, 100, 120]) if i >= 4 else 120))
-            d2 = bytes(r.choice(b"abcdefghijklmnopqrstuvwxyz0123456789") for _ in range(r.choice([90, 120, 124, 125, 126, 127, 128, 130]) if i >= 4 else 124 + i))
+            d2 = bytes(r.choice(b"abcdefghijklmnopqrstuvwxyz0123456789") for _ in range(r.choice([90, 120, 124, 125, 126, 127, 128, 130]) if i >= 4 else 133 + i))
             chain = [T.Entry("dir", d1 + b"/", perms=0o40755, mtime=1_000_000_123, level=2),
                      T.Entry("dir", d1 + b"/" + d2 + b"/", perms=0o40750, mtime=1_000_000_456, level=2)]
             for e in ents:
